@@ -1985,7 +1985,7 @@ class VariablesManager:
         """
         if not isinstance(f,
                           (UnaryMappingVariables,BinaryMappingVariables)):
-            ValueError('f must be either UnaryMappingVariables or BinaryMappingVariables')
+            raise ValueError('f must be either UnaryMappingVariables or BinaryMappingVariables')
         F = self._formula
         if f.parent_formula() != F:
             raise ValueError("mapping f was created from a different formula")
@@ -2031,7 +2031,7 @@ class VariablesManager:
         """
         if not isinstance(f,
                           (UnaryMappingVariables,BinaryMappingVariables)):
-            ValueError('f must be either UnaryMappingVariables or BinaryMappingVariables')
+            raise ValueError('f must be either UnaryMappingVariables or BinaryMappingVariables')
 
         F = self._formula
         if f.parent_formula() != F:
@@ -2064,7 +2064,7 @@ class VariablesManager:
         5
         """
         if not isinstance(f, UnaryMappingVariables):
-            ValueError('f must be a UnaryMappingVariables')
+            raise ValueError('f must be a UnaryMappingVariables')
 
         F = self._formula
         if f.parent_formula() != F:
@@ -2097,7 +2097,7 @@ class VariablesManager:
         """
         if not isinstance(f,
                           (UnaryMappingVariables,BinaryMappingVariables)):
-            ValueError('f must be either UnaryMappingVariables or BinaryMappingVariables')
+            raise ValueError('f must be either UnaryMappingVariables or BinaryMappingVariables')
 
         F = self._formula
         if f.parent_formula() != F:
@@ -2143,7 +2143,7 @@ class VariablesManager:
         """
         if not isinstance(f,
                           (UnaryMappingVariables,BinaryMappingVariables)):
-            ValueError('f must be either UnaryMappingVariables or BinaryMappingVariables')
+            raise ValueError('f must be either UnaryMappingVariables or BinaryMappingVariables')
 
         F = self._formula
         if f.parent_formula() != F:
